@@ -6,6 +6,7 @@ import WgslVerif.Check.All
 import WgslVerif.Check.C08
 import WgslVerif.Check.C09
 import WgslVerif.Check.Simple
+import WgslVerif.Check.C02
 /-
 Driver: reads `(case …)` lines from stdin (written by harness `dump`), prints one line per
 (property, run):   V|<prop>|<case id>|<run#>|<corr>|<spec>|<tags>
@@ -19,7 +20,8 @@ def registry : List (String × (Ctx → Run → Verdict)) :=
     ("C20", fun c r => CheckC20.check c r r.visits),
     ("ALL", CheckAll.check), ("C08", CheckC08.check), ("C09", CheckC09.check),
     ("C04", CheckSimple.c04), ("C12", CheckSimple.c12), ("C13", CheckSimple.c13), ("C14", CheckSimple.c14),
-    ("C15", CheckSimple.c15) ]
+    ("C15", CheckSimple.c15), ("C02", CheckC02.check),
+    ("C05", CheckSimple.c05), ("C06", CheckSimple.c06), ("C16", CheckSimple.c16) ]
 
 def decodeCase (s : Sexp) : Except String (Ctx × List Run) := do
   let fs ← match s with
